@@ -44,7 +44,7 @@ import (
 )
 
 const (
-	// c14Known: the success EWMA is computed as o*w + s*(1-2) instead of
+	// c14Known (fixed in /repo 64b0744): the success EWMA was computed as o*w + s*(1-2) instead of
 	// o*w + s*(1-w). The two expressions differ exactly when s != 0, i.e. on an
 	// acceptable completion; hence the predicate "the connection whose score
 	// breaks a score rule has had at least one acceptable completion".
@@ -186,8 +186,8 @@ type c14Sim struct {
 	badK, okK      []int   // current streak lengths (sequential completions only)
 	badD, okD      []int64 // smallest spacing inside the current streak
 
-	fail      string // first violation that is not explained by the known finding
-	knownFail string // first violation explained by it
+	fail      string // first violation
+	failKnown bool   // it matches the predicate of the (fixed) finding success-ewma-weight
 	classes   map[string]bool
 	trackGaps bool
 	noScore   bool // preference / starvation rules: the score rules are judged by the history rule only
@@ -246,23 +246,20 @@ func c14NewSim(n int, pre int64, conns []c14Conn) *c14Sim {
 
 func (s *c14Sim) score(i int) uint64 { return atomic.LoadUint64(&s.p.conns[i].success) }
 
-// violation files a broken rule. Score rules broken on a connection that has had an
-// acceptable completion are explained by the known finding (see c14Known).
+// violation files a broken rule. While the finding success-ewma-weight was open (before
+// /repo 64b0744) score rules broken on a connection that had had an acceptable completion
+// were reported under that known predicate; the predicate is still attached to such
+// failures (fixed entries of known_findings.txt suppress nothing) but no longer lets
+// the case continue.
 func (s *c14Sim) violation(rule string, conn int, format string, args ...any) {
 	msg := fmt.Sprintf("%s: conn %d at t=%dns: ", rule, conn, s.now()) + fmt.Sprintf(format, args...)
-	scoreRule := rule == "score-range" || rule == "score-direction" || rule == "unhealthy-bound" || rule == "regain"
+	scoreRule := rule == "score-range" || rule == "score-direction" || rule == "unhealthy-bound" || rule == "regain" || rule == "progress-window"
 	if s.noScore && scoreRule {
-		return
-	}
-	if scoreRule && conn >= 0 && s.hadOK[conn] {
-		if s.knownFail == "" {
-			s.knownFail = msg
-		}
-		s.classes["known-hit"] = true
 		return
 	}
 	if s.fail == "" {
 		s.fail = msg
+		s.failKnown = scoreRule && rule != "progress-window" && conn >= 0 && s.hadOK[conn]
 	}
 }
 
@@ -521,8 +518,9 @@ func (s *c14Sim) verdict(v kit.Verdict) kit.Verdict {
 	sort.Strings(v.Classes)
 	if s.fail != "" {
 		v.Fail = s.fail
-	} else if s.knownFail != "" {
-		v.Fail, v.Known = s.knownFail, c14Known
+		if s.failKnown {
+			v.Known = c14Known
+		}
 	}
 	return v
 }
@@ -984,4 +982,179 @@ func c14StarveGen(rt *rapid.T) c14StarveCase {
 func TestVerif_C14_starvation(t *testing.T) {
 	kit.Run(t, "C14", "starvation", kit.Opts{Quick: 50, Thorough: 1600}, c14StarveGen,
 		func(c c14StarveCase) kit.Verdict { return c14Starvation(t, c) })
+}
+
+// ---------------------------------------------------------------------------
+// rule 5: fastfail — long runs of closely spaced completions after an acceptable one
+//
+// One or more acceptable completions, then 2N+extra unacceptable completions spaced
+// exactly delta (N = ceil(ln2*10s/delta), delta 100 us .. 50 ms), optionally followed by
+// 2N acceptable ones. The calls are picked up front and their Done callbacks held, so
+// the spacing of the completions on the target connection is exact and the observed
+// latencies are positive (a zero lag estimate would reset the weight to 0).
+//
+// Judged: every per-completion rule of the simulator (in particular unhealthy-bound,
+// which fires from the N-th failing completion on), plus progress over windows:
+//   failing : score(k) <= score(k-N)/2 + 1        (w^N <= 1/2; truncation only lowers)
+//   recovery: gap(k)   <= gap(k-N)/2 + N + 1      (gap = 1000-score; each update may
+//                                                   lose < 1 unit to truncation/rounding)
+
+type c14FastCase struct {
+	N     int   `json:"n"`     // 1..3 connections
+	Pre   int64 `json:"pre"`   // PRNG seed
+	T     int   `json:"t"`     // target connection
+	Delta int64 `json:"delta"` // spacing of the completions on the target
+	A     int   `json:"a"`     // leading acceptable completions
+	Extra int   `json:"x"`     // failing completions beyond 2N
+	Rec   bool  `json:"rec"`   // recovery phase
+	C     int   `json:"c"`     // error code selector
+}
+
+// hold performs one Pick whose completion is reported later by the caller.
+func (s *c14Sim) hold() (c14Pend, bool) {
+	before := len(s.pend)
+	if i := s.pick(0, true, 0); i < 0 {
+		return c14Pend{}, false
+	}
+	ev := s.pend[len(s.pend)-1]
+	// the event just pushed has the largest (due, seq) only if nothing else is pending
+	if before != 0 {
+		panic("c14: hold with pending events")
+	}
+	s.pend = s.pend[:0]
+	return ev, true
+}
+
+func c14FastNeed(delta int64) int {
+	return int(math.Ceil(math.Ln2 * float64(c14Decay) / float64(delta)))
+}
+
+func c14FastFail(t *testing.T, c c14FastCase) (v kit.Verdict) {
+	var s *c14Sim
+	res := kit.Bubble(t, func() {
+		conns := make([]c14Conn, c.N)
+		for i := range conns {
+			conns[i] = c14Conn{Lat: 8, Mode: "mixed"}
+		}
+		s = c14NewSim(c.N, c.Pre, conns)
+		if s.fail != "" {
+			return
+		}
+		need := c14FastNeed(c.Delta)
+		fails := 2*need + c.Extra
+		recs := 0
+		if c.Rec {
+			recs = 2 * need
+		}
+		want := c.A + fails + recs
+		held := make([][]c14Pend, c.N)
+		for k := 0; len(held[c.T]) < want && k < 3*c.N*want+100 && s.fail == ""; k++ {
+			ev, ok := s.hold()
+			if !ok {
+				return
+			}
+			held[ev.conn] = append(held[ev.conn], ev)
+		}
+		if s.fail != "" {
+			return
+		}
+		if len(held[c.T]) < want {
+			s.classes["fast-target-not-picked-enough"] = true
+			v.Excluded = true
+			return
+		}
+		s.invariants("after the picks")
+		report := func(k int, ok bool) uint64 {
+			time.Sleep(time.Duration(c.Delta))
+			ev := held[c.T][k]
+			ev.okSel, ev.sel = ok, c.C+k
+			s.complete(ev)
+			return s.score(c.T)
+		}
+		k := 0
+		for a := 0; a < c.A && s.fail == ""; a++ {
+			report(k, true)
+			k++
+		}
+		hist := []uint64{s.score(c.T)}
+		for f := 1; f <= fails && s.fail == ""; f++ {
+			sc := report(k, false)
+			k++
+			hist = append(hist, sc)
+			if f >= need && sc <= c14ScoreMax && hist[f-need] <= c14ScoreMax && sc > hist[f-need]/2+1 {
+				s.violation("progress-window", c.T, "%d failing completions exactly %dns apart took the score from %d to %d, not to at most half (+1)",
+					need, c.Delta, hist[f-need], sc)
+			}
+		}
+		if s.fail == "" && hist[len(hist)-1] > c14Healthy {
+			s.violation("unhealthy-bound", c.T, "%d failing completions %dns apart after %d acceptable ones and success is still %d", fails, c.Delta, c.A, hist[len(hist)-1])
+		}
+		if c.Rec && s.fail == "" {
+			gaps := []int64{c14ScoreMax - int64(s.score(c.T))}
+			for r := 1; r <= recs && s.fail == ""; r++ {
+				sc := report(k, true)
+				k++
+				g := c14ScoreMax - int64(sc)
+				gaps = append(gaps, g)
+				if r >= need && g >= 0 && gaps[r-need] >= 0 && g > gaps[r-need]/2+int64(need)+1 {
+					s.violation("progress-window", c.T, "%d acceptable completions exactly %dns apart took the score from %d to %d: distance to 1000 not halved (slack %d)",
+						need, c.Delta, c14ScoreMax-gaps[r-need], sc, need+1)
+				}
+			}
+			s.classes["fast-recovery"] = true
+		}
+		// release every other held call at one instant
+		for i := range held {
+			from := 0
+			if i == c.T {
+				from = k
+			}
+			for _, ev := range held[i][from:] {
+				if s.fail != "" {
+					break
+				}
+				ev.okSel = true
+				s.complete(ev)
+			}
+		}
+		s.invariants("after the last completion")
+		for i, cn := range s.p.conns {
+			if inf := atomic.LoadInt64(&cn.inflight); inf != 0 && s.fail == "" {
+				s.violation("inflight", i, "every call completed but inflight=%d", inf)
+			}
+		}
+		s.classes[fmt.Sprintf("delta=%dus", c.Delta/1000)] = true
+		s.classes[fmt.Sprintf("n=%d", c.N)] = true
+		v.NonTrivial = true
+	})
+	if s == nil {
+		return kit.Verdict{Fail: "bubble: " + res.String()}
+	}
+	v = s.verdict(v)
+	if v.Fail == "" && !res.OK() {
+		v.Fail = "bubble: " + res.String()
+	}
+	return v
+}
+
+func c14FastGen(rt *rapid.T) c14FastCase {
+	c := c14FastCase{
+		Pre:   rapid.Int64Range(0, c14Sec).Draw(rt, "pre"),
+		Delta: rapid.SampledFrom([]int64{100_000, 300_000, 1_000_000, 1_000_000, 3_000_000, 5_000_000, 10_000_000, 20_000_000, 50_000_000}).Draw(rt, "delta"),
+		A:     rapid.IntRange(1, 3).Draw(rt, "a"),
+		Extra: rapid.IntRange(1, 50).Draw(rt, "x"),
+		C:     rapid.IntRange(0, 15).Draw(rt, "c"),
+	}
+	c.N = 1
+	if c.Delta >= 3_000_000 { // several connections multiply the number of held calls
+		c.N = rapid.IntRange(1, 3).Draw(rt, "n")
+	}
+	c.T = rapid.IntRange(0, c.N-1).Draw(rt, "t")
+	c.Rec = c.Delta >= 1_000_000 && rapid.Bool().Draw(rt, "rec")
+	return c
+}
+
+func TestVerif_C14_fastfail(t *testing.T) {
+	kit.Run(t, "C14", "fastfail", kit.Opts{Quick: 40, Thorough: 1600}, c14FastGen,
+		func(c c14FastCase) kit.Verdict { return c14FastFail(t, c) })
 }
